@@ -122,12 +122,54 @@ structure NumCfg where
   posInfS : List Nat
   negInfS : List Nat
   zeroS : List Nat
+  castGuarded : Bool := false   -- the int64 cast is guarded by `-2^63 <= x < 2^63`
+  tinyFallback : Bool := false  -- `formatSmallNumber` ("%.17e" expanded) when the last "%.Nf" does not read back
 
 def genCfg : NumCfg :=
   { buffer := Generated.C18.toStringBuffer, scalarBuffer := Generated.C18.scalarBuffer,
     precisions := Generated.C18.printfPrecisions,
     nanS := Generated.C18.nanString, posInfS := Generated.C18.posInfString,
-    negInfS := Generated.C18.negInfString, zeroS := Generated.C18.zeroString }
+    negInfS := Generated.C18.negInfString, zeroS := Generated.C18.zeroString,
+    castGuarded := Generated.C18.castGuarded == 1, tinyFallback := Generated.C18.tinyFallback == 1 }
+
+/-- the test `static_cast<XMLInt64>(x) == x`, optionally guarded by the range test (then the cast is never
+evaluated where C++ leaves it undefined; `Props.C18.cast_guard_equiv`: the outcome is the same) -/
+def intTest (cfg : NumCfg) (neg : Bool) (m : Nat) (e : Int) : Bool :=
+  (!cfg.castGuarded || !castIsUB neg m e) && (Dbl.ofInt (castInt64 neg m e)).ieeeEq (.fin neg m e)
+
+/-- smallest `k ≥ start` with `m·10^k ≥ den` (bounded search: at most `fuel` steps) -/
+def findK (m den : Nat) : Nat → Nat → Nat
+  | 0, k => k
+  | f + 1, k => if m * 10 ^ k ≥ den then k else findK m den f (k + 1)
+
+/-- `formatSmallNumber`: glibc `sprintf("%.17e")` = first digit, 17 more, decimal exponent, the exact value
+rounded half-even to 18 significant digits; when the exponent printed is negative (`e-k`, k ≥ 1) the
+result is `[-]0.` followed by `k-1` zeros and the 18 digits; `none` = "return 0" (exponent not negative). -/
+def sciExpand (neg : Bool) (m : Nat) (e : Int) : Option (List Nat) :=
+  if e ≥ 0 then none else
+  let den := 2 ^ (-e).toNat
+  if m ≥ den ∨ m = 0 then none else
+  let k0 := findK m den 323 1
+  let num := m * 10 ^ (k0 + 17)
+  let q := num / den
+  let r := num % den
+  let d0 := if 2 * r > den ∨ (2 * r = den ∧ q % 2 = 1) then q + 1 else q
+  let d := if d0 = 10 ^ 18 then 10 ^ 17 else d0
+  let k := if d0 = 10 ^ 18 then k0 - 1 else k0
+  if k = 0 then none
+  else some ((if neg then [cMinus] else []) ++ [c0] ++ cDot :: (List.replicate (k - 1) c0 ++ decDigits d))
+
+/-- contents of `theBuffer` when the zero stripping starts: the result of the precision loop, replaced by
+`formatSmallNumber` when that is compiled in and the last attempt did not read back.  `none` = overrun. -/
+def finalBuffer (cfg : NumCfg) (neg : Bool) (m : Nat) (e : Int) : Option (List Nat) :=
+  match printLoop cfg.buffer neg m e cfg.precisions with
+  | none => none
+  | some buf =>
+    if cfg.tinyFallback && !(atofModel buf).ieeeEq (.fin neg m e) then
+      match sciExpand neg m e with
+      | some b => if b.length + 1 > cfg.buffer then none else some b
+      | none => some buf
+    else some buf
 
 /-- `NumberToDOMString(double, XalanDOMString&)` appended to an empty string -/
 def numberToString (cfg : NumCfg) : Dbl → Out
@@ -137,23 +179,22 @@ def numberToString (cfg : NumCfg) : Dbl → Out
   | .fin neg m e =>
     if m = 0 then .ok cfg.zeroS
     else
-      let i := castInt64 neg m e
-      if (Dbl.ofInt i).ieeeEq (.fin neg m e) then
-        let s := scalarToDecimal i
+      if intTest cfg neg m e then
+        let s := scalarToDecimal (castInt64 neg m e)
         if s.length + 1 > cfg.scalarBuffer then .memErr else .ok s
       else
-        match printLoop cfg.buffer neg m e cfg.precisions with
+        match finalBuffer cfg neg m e with
         | none => .memErr
         | some buf =>
           match postProcess buf with
           | none => .memErr
           | some s => .ok s
 
-/-- did the precision loop end because the text read back equal (`atof(theBuffer) == theValue`)?
+/-- does the text in the buffer when zero stripping starts read back equal (`atof(theBuffer) == theValue`)?
 Decidable per value; `false` exactly for the values the loop leaves at the last precision without a
 match (the tiny numbers of the known finding) or that overrun the buffer. -/
 def readsBack (cfg : NumCfg) (neg : Bool) (m : Nat) (e : Int) : Bool :=
-  match printLoop cfg.buffer neg m e cfg.precisions with
+  match finalBuffer cfg neg m e with
   | some buf => (atofModel buf).ieeeEq (.fin neg m e)
   | none => false
 
